@@ -96,6 +96,35 @@ fn eight_times(q: &Pt) -> Option<Pt> {
 
 pub fn cases(tier: Tier) -> Vec<GCase> {
     let mut out = vec![];
+    // the typed point an entry point hands back must BE the admitted point: every
+    // deviation of the coordinates it allocated has to be unsatisfiable (the native
+    // verdict is carried into the circuit by the constant / public-input rows), also
+    // when the point then flows into a component that relies on its type
+    for (pn, p) in subgroup_points(tier).into_iter().chain([("O".to_string(), Pt::identity())]) {
+        let ext = JubJubExtended::from_raw_unchecked(p.x, p.y, one(), p.x, p.y);
+        let g = Gadget::new(&format!("append_constant_point/{}", pn), vec![], move |c, _| {
+            let w = c.append_constant_point(ext)?;
+            Ok(vec![*w.x(), *w.y()])
+        });
+        let mut c = GCase::new(g, Expect::Sat(vec![p.x, p.y]), "entry/append_constant_point/binding");
+        c.bound2 = true;
+        out.push(c);
+        let g = Gadget::new(&format!("append_public_point/{}", pn), vec![], move |c, _| {
+            let w = c.append_public_point(ext)?;
+            Ok(vec![*w.x(), *w.y()])
+        });
+        let mut c = GCase::new(g, Expect::Sat(vec![p.x, p.y]), "entry/append_public_point/binding");
+        c.bound2 = true;
+        out.push(c);
+        let g = Gadget::new(&format!("append_constant_point+neg_point/{}", pn), vec![], move |c, _| {
+            let w = c.append_constant_point(ext)?;
+            let r = c.component_neg_point(w);
+            Ok(vec![*r.x(), *r.y()])
+        });
+        let mut c = GCase::new(g, Expect::Sat(vec![-p.x, p.y]), "entry/append_constant_point/binding");
+        c.bound2 = true;
+        out.push(c);
+    }
     for (pn, p) in candidates(tier) {
         let member = p.in_subgroup();
         // honest entry point
